@@ -202,25 +202,26 @@ class SeriesP:
         self.maps[(which, key)] = [z3.Store(P, jt, z3.BoolVal(False)), W]
         self.gen += 1
 
-    def havoc_key(self, which, key, lo, hi, tag):
-        """replace entries [lo, hi) of one key by fresh values (frame of a callee)"""
+    def havoc_at(self, which, key, j, tag):
+        """replace the entry of one key at one position by fresh values (write frame of a callee)"""
+        jt = to_int_term(j)
         P, W = self.map(which, key)
         nm = f"{self.name}.{which}[{keyname(key)}]#{tag}"
-        P2, W2 = IntArr(nm + ".has", z3.BoolSort()), IntArr(nm + ".val", V)
-        lo_t, hi_t = to_int_term(lo), to_int_term(hi)
-        facts = []
-        single = z3.simplify(hi_t - lo_t)
-        if z3.is_int_value(single) and single.as_long() == 1:
-            hv, wv = z3.Bool(nm + ".h"), z3.Const(nm + ".w", V)
-            self.maps[(which, key)] = [z3.Store(P, lo_t, hv), z3.Store(W, lo_t, wv)]
-            for (w, kk, fld), arr in list(self.fields.items()):
-                if w == which and kk == key:
-                    self.fields[(w, kk, fld)] = z3.Store(arr, lo_t, z3.Const(f"{nm}.{fld}", V))
-            self.log.append((which, key, lo_t, {}))
-            self.log[-1] = (which, key, lo_t, _Havoc(nm))
-            self.gen += 1
-            return None
-        raise Unsupported("range havoc of a key (use quantified frame)")
+        self.maps[(which, key)] = [z3.Store(P, jt, z3.Bool(nm + ".h")), z3.Store(W, jt, z3.Const(nm + ".w", V))]
+        for (w, kk, fld), arr in list(self.fields.items()):
+            if w == which and kk == key:
+                self.fields[(w, kk, fld)] = z3.Store(arr, jt, z3.Const(f"{nm}.{fld}", V))
+        self.log.append((which, key, jt, _Havoc(nm)))
+        self.gen += 1
+
+    def havoc_all(self, which, key, tag):
+        nm = f"{self.name}.{which}[{keyname(key)}]#{tag}"
+        self.maps[(which, key)] = [IntArr(nm + ".has", z3.BoolSort()), IntArr(nm + ".val", V)]
+        for (w, kk, fld) in list(self.fields):
+            if w == which and kk == key:
+                self.fields[(w, kk, fld)] = IntArr(f"{nm}.{fld}", V)
+        self.log = [e for e in self.log if not (e[0] == which and e[1] == key)]
+        self.gen += 1
 
 
 class _Havoc(dict):
